@@ -24,7 +24,7 @@ FUNCTIONS_ENCODED = [
 ]
 TRUSTED = hc.TRUSTED + ["INV = canonical-form equality with Index().build(storage); equal timestamps may be ordered differently"]
 ASSUMPTIONS = hc.COMMON_ASSUMPTIONS + [
-    "bounds: all skeletons of depth <= 4 (quick) / 5 (thorough) over {insert, insert_multiple(2), remove(tag==a), remove(time<x), "
+    "bounds: all skeletons of depth <= 4 (quick) / 5 (thorough) over {insert, insert of a point without time (stamped by the symbolic clock), insert_multiple(2), remove(tag==a), remove(time<x), "
     "remove_all, drop_measurement, update(tag==a, field), read, all(), reindex}, each started after 1-2 symbolic inserts; "
     "auto_index on and off",
     "family (I): pre-state = Index().build of <= 4 symbolic points, removal set = every subset (selector)",
@@ -34,6 +34,7 @@ BOUNDS = {"quick": {"depth": 4}, "thorough": {"depth": 5}}
 
 OPS = {
     "ins": ("ins",),
+    "ins_notime": ("ins_notime",),
     "insm": ("insm", 2),
     "rm_tag": ("rm", ("tag", "k", "==", "a")),
     "rm_time": ("rm", ("time", "<", SYM)),
@@ -171,10 +172,12 @@ def obligations(tier):
             seqs.append(s)
     for ai in (True, False):
         for s in seqs:
-            also = ["tag", "meas"] if th else []
+            # thorough: depth 3 with fixed tags; depth <= 2 additionally with symbolic tags/measurements and two pre-inserts
+            rich = th and len(s) <= 2
+            also = ["tag", "meas"] if rich else []
             if any(x in ("rm_notfield",) for x in s):
                 also.append("field")
-            pre = ["ins", "ins"] if th else ["ins"]
+            pre = ["ins", "ins"] if rich else ["ins"]
             ops = [OPS[x] for x in pre] + [OPS[x] for x in s]
             obs.append(_ob(f"hist/{'ai' if ai else 'noai'}/{','.join(pre)},{','.join(s)}", ops, ai, also=also, budget=120 if not th else 600))
     # a few deeper, hand-picked skeletons around the known weak spots
